@@ -166,7 +166,7 @@ Clause(i, cl, nn, old, new, seen) ==
 MassFails(nn, new) ==
     LET bad == {pi \in 1..Len(new) : Mass(new[pi]).a # ROne
                    \/ \E r \in new[pi] : RSign(r.w.a) <= 0}
-    IN  [pi \in bad |-> [n |-> nn, i |-> 0, t |-> "mass", got |-> Mass(new[pi])]]
+    IN  [pi \in bad |-> [n |-> nn, i |-> 0, t |-> "mass", pi |-> pi, got |-> Mass(new[pi])]]
 
 RECURSIVE Clauses(_, _, _, _, _, _)
 Clauses(cls, i, nn, old, new, seen) ==
